@@ -908,8 +908,11 @@ func RunInfoJSON(outDir string, seed int64, tier string) error {
 			info := chain.NewChainInfo(cloneGroup(grp))
 			e.infoAll(info, true)
 			e.infoRejects(info)
+			if k == 0 {
+				e.infoMixed(info, tier == "thorough")
+			}
 		}
 	}
-	e.rep.Rule = "per scheme: chain infos of generated groups through Info.ToProto/InfoFromProto, MarshalJSON/UnmarshalJSON (CMir, CRt) and UnmarshalJSON on chain_hash / period / id / scheme perturbations (CDec)"
+	e.rep.Rule = "per scheme: chain infos of generated groups through Info.ToProto/InfoFromProto, MarshalJSON/UnmarshalJSON (CMir, CRt), UnmarshalJSON on chain_hash / period / id / scheme perturbations (CDec), and documents in every combination of v2 / v1 / both spellings of scheme, genesis seed and beacon id x chain_hash absent / matching / other / matching before a change of period, genesis time, public key, seed or id (CDec, CDecOut; monitor: an accepted document's chain_hash is the hash of the decoded info)"
 	return e.finish(outDir, "cases_infojson", 40)
 }
